@@ -11,6 +11,7 @@ qm_c08 — driver for the runtime compatibility tables (M-Types `Compat.lean`). 
   (param-compat)       → (fp (<tag>…)…) (bp (<tag>…)…) | fuel-out
   (canonical)          → (canon <id>…)
   (tag-type <tag>)     → <type id> | none
+  (tag-types)          → (tt (<tag> <type id | _>)…)   for every tag of the input, in canonical order
   (is-type <pattern> <tag>)   → true | false | fuel-out     (through `typeCompat` + `isType`)
   (message fn|builtin|other <id> <tag>)  → true | false | fuel-out  (`paramCompat` + `checkMessage`)
   (compat a b)         → true | false | fuel-out
@@ -97,6 +98,10 @@ def c08Step (s : C08State) (req : List Sx) : C08State × String :=
       | some id => (s, toString id)
       | none => (s, "none")
     | none => (s, "bad-request")
+  | [.list [.atom "tag-types"]] =>
+    let idx := TypeIndex.build T
+    (s, "(tt" ++ String.join ((allTags inp).map (fun c =>
+      " (" ++ renderTag c ++ " " ++ (match tagType inp idx c with | some id => toString id | none => "_") ++ ")")) ++ ")")
   | [.list [.atom "is-type", p, c]] =>
     match p.asNat, tagOfSx c with
     | some p, some c =>
